@@ -18,12 +18,12 @@ COQ_CHECK = 'Balancer.check_case'
 COQ_EXPLAIN = 'Balancer.explain_case'
 SHARD = 40
 WORKERS = 6
-RULE = ('seeded random histories over 1-12 endpoints (+ up to 3 spare): in half of them 1-5 join/leave notifications arrive before '
+RULE = ('in 40% of the histories the provider has endpoint_name=\'aux\' and members carry additional_endpoints={\'aux\': ep} different from service_endpoint, with join/leave notifications of members lacking that endpoint (must raise ValueError and change nothing; those steps are not labels of the model); 30% go through the real ClientTimeoutSink; seeded random histories over 1-12 endpoints (+ up to 3 spare): in half of them 1-5 join/leave notifications arrive before '
         'the initial list (which may contain duplicates or be empty) is installed; afterwards churn-heavy phases (joins of known and '
         'unknown endpoints, leaves of unknown, idle, loaded, marked-down members, re-joins) interleaved with traffic, channel flapping '
         'and saturating bursts; 15% on ApertureBalancerSink with all members active; exhaustive (thorough): every sequence of 5 '
         'notifications over 2 endpoints around Init; non-trivial = at least 3 requests dispatched; distinct by canonical JSON')
-TRUSTED = ['mock server-set provider (serial delivery, blocking GetServers) / mock channels / scripted random.shuffle of '
+TRUSTED = ['mock members with a named additional endpoint', 'mock server-set provider (serial delivery, blocking GetServers) / mock channels / scripted random.shuffle of '
            'harness/c03_balancer_driver.py', 'reference server set and burst oracle of the monitor (analyse) in the same file']
 ASSUMPTIONS = ['the provider delivers notifications serially (base.py relies on this; the real ZooKeeper provider is C19)',
                'traffic starts after Open() completed (requests issued earlier are queued by base.py: C01/C02)',
